@@ -8,6 +8,8 @@
 //	          NewCacheRequestGenerator -> tcp/udp/icmp PacketFiller -> Ethernet destination
 //	gw        ipScanCmdOpts.getGatewayMAC (hook command/verif_export_c11.go)
 //	race      64 goroutines reading the loaded cache (meaningful when built with -race)
+//	big       cache files of 65536 / 65537 / about 70000 / 131072 distinct addresses (more than a /16) through
+//	          FillCache, then Get and NewCacheRequestGenerator + a filler for addresses at the edge positions
 package main
 
 import (
@@ -91,6 +93,10 @@ type row struct {
 	RouteErr bool   `json:"route_err,omitempty"`
 	GotMAC   string `json:"gotmac,omitempty"`
 	GotNil   bool   `json:"gotnil,omitempty"`
+	// big (large cache file: only its construction and an excerpt are recorded, not the megabytes of text)
+	Lines    int    `json:"lines,omitempty"`
+	Distinct int    `json:"distinct,omitempty"`
+	Excerpt  string `json:"excerpt,omitempty"`
 }
 
 func hx(b []byte) string { return hex.EncodeToString(b) }
@@ -1324,6 +1330,226 @@ func raceCase(r *hlib.SplitMix64, gen string, readers int) row {
 	return rw
 }
 
+// ---------------------------------------------------------------- large caches (more than a /16 of distinct hosts)
+
+// bigCase: a cache file as `sx arp --json` prints it for a large network (or several scans concatenated):
+// n DISTINCT addresses base+i*stride, each with its own MAC 02:salt:i(4 bytes), some lines in the mapped
+// spelling, followed by repeated lines (new MAC) for a few of the addresses, among them the positions around
+// 65536.  The file goes through the real FillCache; then Cache.Get (4- and 16-byte form) and the real cache
+// request generator + one real filler are asked for the addresses at positions 0, 1, 65535, 65536, 65537,
+// n-1, the repeated ones and random ones, plus hosts that are not in the file.  Judged on the implementation
+// alone by the property: a probe for X carries exactly the MAC the LAST line for X gives, otherwise the
+// gateway MAC, otherwise an error - never the MAC printed for another host.  (A file of this size is not sent
+// through the model's vm_compute; the statement for all files is the theorem C11_last_wins/C11_never_other_host.)
+func bigCase(r *hlib.SplitMix64, gen string) row {
+	n := 65537
+	if p := strings.Split(gen, ":"); len(p) == 3 {
+		n, _ = strconv.Atoi(p[1])
+	}
+	if n < 1 {
+		n = 1
+	}
+	if n > 1<<18 {
+		n = 1 << 18
+	}
+	rw := row{T: "big", Gen: gen, Class: fmt.Sprintf("large-cache-%d", n), Nontrivial: true}
+	base := uint32(1+r.Intn(100))<<24 | uint32(r.Intn(1<<24))
+	stride := uint32([]int{1, 1, 1, 2, 3, 256, 257}[r.Intn(7)])
+	salt := byte(r.Intn(256))
+	ipOf := func(i int) net.IP {
+		v := base + uint32(i)*stride
+		return net.IP{byte(v >> 24), byte(v >> 16), byte(v >> 8), byte(v)}
+	}
+	macOf := func(i int, gen byte) net.HardwareAddr {
+		return net.HardwareAddr{2 | gen<<2, salt, byte(i >> 24), byte(i >> 16), byte(i >> 8), byte(i)}
+	}
+	line := func(i int, mac net.HardwareAddr, mapped bool) string {
+		ip := ipOf(i).String()
+		if mapped {
+			ip = "::ffff:" + ip
+		}
+		return fmt.Sprintf("{\"ip\":%q,\"mac\":%q,\"vendor\":\"\"}\n", ip, mac.String())
+	}
+	want := make(map[[4]byte]net.HardwareAddr, n)
+	lineNo := make(map[[4]byte]int, n) // 1-based number of the last line for the address
+	key := func(ip net.IP) (k [4]byte) { copy(k[:], ip.To4()); return }
+	var file bytes.Buffer
+	file.Grow(n * 64)
+	nlines := 0
+	put := func(i int, mac net.HardwareAddr) {
+		file.WriteString(line(i, mac, (i+int(salt))%16 == 7))
+		nlines++
+		want[key(ipOf(i))] = mac
+		lineNo[key(ipOf(i))] = nlines
+	}
+	for i := 0; i < n; i++ {
+		put(i, macOf(i, 0))
+	}
+	// repeated lines (the last line for an address wins): edge positions and random ones
+	edges := []int{0, 1, 65535, 65536, 65537, n - 1}
+	var repeated []int
+	for _, e := range edges {
+		if e >= 0 && e < n && r.Intn(3) == 0 {
+			repeated = append(repeated, e)
+		}
+	}
+	for k := r.Intn(6); k > 0; k-- {
+		repeated = append(repeated, r.Intn(n))
+	}
+	for _, i := range repeated {
+		put(i, macOf(i, 1))
+	}
+	rw.Lines, rw.Distinct = nlines, len(want)
+	cache := arp.NewCache()
+	if err := arp.FillCache(cache, bytes.NewReader(file.Bytes())); err != nil {
+		rw.ErrKind = errKind(err)
+		rw.Spec = fmt.Sprintf("a cache file of %d valid lines (%d distinct addresses) is rejected: %v", nlines, len(want), err)
+		return rw
+	}
+	// positions asked for
+	pos := []int{}
+	seen := map[int]bool{}
+	add := func(i int) {
+		if i >= 0 && i < n && !seen[i] {
+			seen[i] = true
+			pos = append(pos, i)
+		}
+	}
+	for _, e := range edges {
+		add(e)
+	}
+	for _, e := range []int{2, 255, 256, 32767, 32768, 65534, 65538, 131071, n - 2} {
+		add(e)
+	}
+	for _, i := range repeated {
+		add(i)
+		add(i - 65536)
+		add(i + 65536)
+	}
+	for k := 0; k < 40; k++ {
+		add(r.Intn(n))
+	}
+	describe := func(i int) string {
+		k := key(ipOf(i))
+		return fmt.Sprintf("position %d of the distinct addresses, last line for it is line %d: %s", i, lineNo[k],
+			strings.TrimSpace(line(i, want[k], (i+int(salt))%16 == 7)))
+	}
+	owner := func(mac net.HardwareAddr) string {
+		if len(mac) != 6 || mac[1] != salt || mac[0]&^4 != 2 {
+			return ""
+		}
+		j := int(mac[2])<<24 | int(mac[3])<<16 | int(mac[4])<<8 | int(mac[5])
+		if j < n {
+			ln := j + 1
+			if mac[0] == 6 {
+				ln = lineNo[key(ipOf(j))]
+			}
+			return fmt.Sprintf("; that MAC is printed in line %d for ANOTHER host, %s", ln, ipOf(j))
+		}
+		return ""
+	}
+	shape := fmt.Sprintf("cache file of %d lines as printed by `sx arp --json`: %d distinct addresses %s + i*%d (i = 0..%d) with MAC %s..%s, then %d repeated lines",
+		nlines, len(want), ipOf(0), stride, n-1, macOf(0, 0), macOf(n-1, 0), len(repeated))
+	var ex []string
+	// 1. Get on both address forms
+	for _, i := range pos {
+		ip := ipOf(i)
+		w := want[key(ip)]
+		for _, form := range []net.IP{ip, ip.To16()} {
+			got := cache.Get(form)
+			rw.Queries = append(rw.Queries, query{IP: hx(form), MAC: hx(got), Hit: got != nil})
+			if rw.Spec == "" && !bytes.Equal(got, w) {
+				g := "no entry"
+				if got != nil {
+					g = got.String()
+				}
+				rw.Spec = fmt.Sprintf("%s: FillCache accepts it, then Get(%s) (%d-byte form) = %s, but the file maps it to %s (%s)%s",
+					shape, ip, len(form), g, w, describe(i), owner(got))
+				ex = append(ex, line(0, macOf(0, 0), int(salt)%16 == 7), "...\n", line(i, w, (i+int(salt))%16 == 7))
+			}
+		}
+	}
+	// 2. the cache stage of the IP-level scans and a filler
+	var gw net.HardwareAddr
+	if r.Intn(3) > 0 {
+		gw = net.HardwareAddr{0x0a, salt, 0x99, 0x99, 0x99, 0x99}
+		rw.GW, rw.HasGW = hx(gw), true
+	}
+	lg := &listGen{}
+	myMAC := []byte{2, 0, 0, 0, 0, 1}
+	for k, i := range pos {
+		d := ipOf(i)
+		if k%3 == 1 {
+			d = d.To16()
+		}
+		lg.reqs = append(lg.reqs, &scan.Request{SrcIP: net.IP{9, 9, 9, 9}, DstIP: d, SrcMAC: myMAC, DstPort: uint16(1 + r.Intn(65535))})
+		if k%5 == 0 { // a host that is not in the file: gateway or error
+			off := net.IP{225, byte(r.Intn(256)), byte(r.Intn(256)), byte(r.Intn(256))}
+			lg.reqs = append(lg.reqs, &scan.Request{SrcIP: net.IP{9, 9, 9, 9}, DstIP: off, SrcMAC: myMAC, DstPort: 80})
+		}
+	}
+	ctx, cancel := context.WithCancel(context.Background())
+	defer cancel()
+	out, err := arp.NewCacheRequestGenerator(lg, gw, cache).GenerateRequests(ctx, &scan.Range{})
+	if err != nil {
+		panic(err)
+	}
+	fillers := []struct {
+		name string
+		f    scan.PacketFiller
+	}{{"tcp", tcp.NewPacketFiller(tcp.WithSYN())}, {"udp", udp.NewPacketFiller()}, {"icmp", icmp.NewPacketFiller(icmp.WithType(8))}}
+	fl := fillers[r.Intn(len(fillers))]
+	cnt := 0
+	for rq := range out {
+		cnt++
+		o := reqObs{Dst: hx(rq.DstIP), Port: int(rq.DstPort), Err: rq.Err != nil, DstMAC: hx(rq.DstMAC)}
+		if rq.Err == nil {
+			o.Filler = fl.name
+			buf := gopacket.NewSerializeBuffer()
+			if err := fl.f.Fill(buf, rq); err == nil {
+				o.FillOK = true
+				if b := buf.Bytes(); len(b) >= 14 {
+					o.EthDst = hx(b[:6])
+				}
+			}
+		}
+		rw.Reqs = append(rw.Reqs, o)
+		if rw.Spec != "" {
+			continue
+		}
+		w, inFile := want[key(rq.DstIP)]
+		where := "it is not in the file"
+		if inFile {
+			v := uint32(rq.DstIP.To4()[0])<<24 | uint32(rq.DstIP.To4()[1])<<16 | uint32(rq.DstIP.To4()[2])<<8 | uint32(rq.DstIP.To4()[3])
+			where = describe(int((v - base) / stride))
+		} else {
+			w = gw
+		}
+		switch {
+		case w == nil && rq.Err == nil:
+			rw.Spec = fmt.Sprintf("%s: probe for %s (no cache entry, no gateway MAC) is not replaced by an error but addressed to %s%s",
+				shape, rq.DstIP, net.HardwareAddr(rq.DstMAC), owner(rq.DstMAC))
+		case w != nil && rq.Err != nil:
+			rw.Spec = fmt.Sprintf("%s: probe for %s is replaced by an error although its MAC %s is known (%s)", shape, rq.DstIP, w, where)
+		case w != nil && !bytes.Equal(rq.DstMAC, w):
+			rw.Spec = fmt.Sprintf("%s: the cache stage addresses the probe for %s to %s, expected %s (%s)%s",
+				shape, rq.DstIP, net.HardwareAddr(rq.DstMAC), w, where, owner(rq.DstMAC))
+		case w != nil && o.FillOK && o.EthDst != hx(w):
+			rw.Spec = fmt.Sprintf("%s: the %s frame for %s has Ethernet destination %s, expected %s (%s)", shape, fl.name, rq.DstIP, o.EthDst, w, where)
+		case w != nil && !o.FillOK:
+			rw.Spec = fmt.Sprintf("%s: no %s frame could be built for %s", shape, fl.name, rq.DstIP)
+		}
+	}
+	if rw.Spec == "" && cnt != len(lg.reqs) {
+		rw.Spec = fmt.Sprintf("%s: %d requests went in, %d came out of the cache stage", shape, len(lg.reqs), cnt)
+	}
+	if len(ex) == 0 {
+		ex = []string{line(0, macOf(0, 0), int(salt)%16 == 7), "...\n", line(n-1, want[key(ipOf(n-1))], (n-1+int(salt))%16 == 7)}
+	}
+	rw.Excerpt = shape + "\n" + strings.Join(ex, "")
+	return rw
+}
+
 // ---------------------------------------------------------------- driver
 
 func derive(seed int64, i int) int64 {
@@ -1365,6 +1591,8 @@ func genCase(gen string) row {
 		return muxCase(r, gen)
 	case "race":
 		return raceCase(r, gen, 64)
+	case "big":
+		return bigCase(r, gen)
 	case "ipbyte": // ipbyte:<pos>:<value>: the per-byte sweep of the decimal text round trip
 		pos, _ := strconv.Atoi(parts[1])
 		b := []byte{10, 20, 30, 40}
@@ -1398,6 +1626,7 @@ func main() {
 	sweep := flag.Bool("sweep", false, "all 256 values of every address byte")
 	race := flag.Int("race", 0, "number of concurrent-reader runs")
 	nmux := flag.Int("mux", 9, "number of cache stage -> concurrent packet generator runs")
+	nbig := flag.Int("big", 0, "number of additional large cache files of random size (four fixed sizes always run)")
 	one := flag.String("replay", "", "replay one case from its generator string")
 	flag.Parse()
 	w := hlib.NewOut(*out)
@@ -1448,6 +1677,15 @@ func main() {
 	}
 	for i := 0; i < *nmux; i++ {
 		w.Put(genCase(fmt.Sprintf("mux:%d:%d", i%3, derive(*seed, k))))
+		k++
+	}
+	// large caches: a full /16, one more, somewhat more, two /16 (plus further sizes with -big)
+	bigSizes := []int{65536, 65537, 65538 + int(uint64(derive(*seed, k))%8000), 131072}
+	for i := 0; i < *nbig; i++ {
+		bigSizes = append(bigSizes, 60000+int(uint64(derive(*seed, k+1+i))%140000))
+	}
+	for _, sz := range bigSizes {
+		w.Put(genCase(fmt.Sprintf("big:%d:%d", sz, derive(*seed, k))))
 		k++
 	}
 	for i := 0; i < 24; i++ {
